@@ -12,7 +12,7 @@ import sys
 import tempfile
 
 VERIF = os.path.dirname(os.path.dirname(os.path.abspath(__file__)))
-REPO = os.environ.get('VERIF_REPO', '/repo')
+REPO = os.environ.get('VERIF_REPO') or '/repo'
 PY = os.path.join(REPO, 'Python')
 GUARD = 'DAWGIE_VERIF'
 
